@@ -43,6 +43,8 @@ Definition mk_transcript (d : option (bytes * list bytes)) : option strobe :=
   end.
 Definition adss_shares (t : N) (M R : bytes) (T : option (bytes * list bytes)) (xs : list fp) :=
   shares_at KF {| cA := t; cM := M; cR := R; cT := mk_transcript T |} xs.
+Definition adss_coeffs (t : N) (M R : bytes) : outcome (option (list (list fp))) :=
+  polys_of KF {| cA := t; cM := M; cR := R; cT := None |}.
 Definition adss_recover (l : list bytes) : outcome commune :=
   let! shs := decode_ashares l in arecover KF shs.
 
@@ -54,17 +56,7 @@ Record star_result := {
   srKey : bytes;
   srPay : list (outcome (bytes * option bytes))
 }.
-Definition star_reports (m e : bytes) (t : N) (rnd : bytes) (clients : list (option bytes * fp))
-  : outcome (option (list message)) :=
-  match shares_at KF (commune_of KF t rnd) (map snd clients) with
-  | Ok (Some shs) =>
-      let k := derive_ske_key KF (r0 KF rnd) e in
-      Ok (Some (map (fun p => {| mCt := ct_new KF k (payload m (fst (fst p))) Params.lbl_star_encrypt;
-                                 mShare := snd p; mTag := r2 KF rnd |}) (combine clients shs)))
-  | Ok None => Ok None
-  | Err => Err
-  | Panic => Panic
-  end.
+Definition star_reports := Star.star_reports KF.
 Fixpoint decode_messages (l : list bytes) : outcome (list message) :=
   match l with
   | [] => Ok []
@@ -79,7 +71,7 @@ Definition star_recover_from (e : bytes) (wire : list bytes) (sel : list nat) : 
       | Ok c =>
           let k := derive_ske_key KF (cM c) e in
           {| srWire := wire; srRec := Ok (cM c); srKey := k;
-             srPay := map (fun mm => parse_payload (ct_decrypt KF k (mCt mm) Params.lbl_agg_decrypt)) msgs |}
+             srPay := map (fun mm => parse_payload_strict (ct_decrypt KF k (mCt mm) Params.lbl_agg_decrypt)) msgs |}
       | Err => {| srWire := wire; srRec := Err; srKey := []; srPay := [] |}
       | Panic => {| srWire := wire; srRec := Panic; srKey := []; srPay := [] |}
       end
@@ -106,7 +98,7 @@ Definition anchor_adss_recover (l : list bytes) : list bytes :=
   | _ => []
   end.
 Definition anchor_star_derive (m e : bytes) (t : N) : list bytes :=
-  let '(rnd, (a, b, c), k) := star_derive m e t in [rnd; a; b; c; k].
+  let '(rnd, (a, b, c), k) := star_derive m e t in [rnd; c; k].
 Definition anchor_sharks_recover (t : N) (l : list bytes) : list bytes :=
   match decode_shares l with
   | Ok shs => match Shamir.recover t shs with Ok b => [b] | _ => [] end
